@@ -146,6 +146,17 @@ pub(crate) fn is_last_comment_block(s: &str) -> bool {
     s.trim_end().ends_with("*/")
 }
 
+/// Returns true if the last comment of the passed string is a line comment.
+pub(crate) fn ends_with_line_comment(s: &str) -> bool {
+    let mut last_comment_start = None;
+    for (kind, (i, _)) in CharClasses::new(s.char_indices()) {
+        if kind == FullCodeCharKind::StartComment {
+            last_comment_start = Some(i);
+        }
+    }
+    last_comment_start.map_or(false, |i| s[i..].starts_with("//"))
+}
+
 /// Combine `prev_str` and `next_str` into a single `String`. `span` may contain
 /// comments between two strings. If there are such comments, then that will be
 /// recovered. If `allow_extend` is true and there is no comment between the two
